@@ -11,8 +11,8 @@ EXTENDS Wallet, Json, IOUtils
 Trace == ndJsonDeserialize(IOEnv.VERIF_TRACE)
 OutFile == IOEnv.VERIF_TAGS
 
-VARIABLES l, P, signed, bad, stats, crashed
-vars == <<l, P, signed, bad, stats, crashed>>
+VARIABLES l, P, signed, bad, stats, crashed, dbl
+vars == <<l, P, signed, bad, stats, crashed, dbl>>
 
 RECURSIVE FoldReqs(_, _, _)
 \* walks the requests of an event in order: returns [signed, tags]
@@ -23,7 +23,7 @@ FoldReqs(reqs, sg, tags) ==
 
 Empty == [wallets |-> << >>, tokens |-> << >>, mints |-> << >>]
 
-Init == l = 1 /\ P = Empty /\ signed = << >> /\ crashed = FALSE /\ bad = {} /\ stats = [events |-> 0, ok |-> 0, failed |-> 0, requests |-> 0]
+Init == l = 1 /\ P = Empty /\ signed = << >> /\ crashed = FALSE /\ dbl = {} /\ bad = {} /\ stats = [events |-> 0, ok |-> 0, failed |-> 0, requests |-> 0]
 
 StepAct ==
   /\ l <= Len(Trace)
@@ -31,7 +31,9 @@ StepAct ==
          fresh == e.ev = "init"
          sg0 == IF fresh THEN << >> ELSE signed
          fr == FoldReqs(e.reqs, sg0, {})
-         all == (IF fresh THEN {} ELSE Step(P, e, e.post)) \cup Inv(e.post) \cup fr.tags \cup CounterTags(fr.signed, e.post)
+         \* proofs double-held (wallet store and outstanding token) as of a restore: see Wallet!DoubleHeld
+         dbl2 == IF fresh THEN {} ELSE IF e.ev = "restore" THEN dbl \cup DoubleHeld(e.post) ELSE dbl
+         all == (IF fresh THEN {} ELSE Step(P, e, e.post)) \cup InvX(e.post, dbl2) \cup fr.tags \cup CounterTags(fr.signed, e.post)
          \* a wallet process killed mid-operation (event "crash"): C17 and C18 speak of fault-free operation only, and the dead
          \* wallet's stored counter may lag; what remains is C19's restore clause, the counter discipline of whatever runs
          \* after the restore, and what the mint saw (C08, C06)
@@ -39,6 +41,7 @@ StepAct ==
          tags == IF dead THEN {t \in all : t[1] \in {"C08", "C06"} \/ (t[1] = "C19" /\ e.ev # "crash")} ELSE all
      IN /\ P' = e.post
         /\ crashed' = dead
+        /\ dbl' = dbl2
         /\ signed' = fr.signed
         /\ bad' = bad \cup {<<t[1], e.tr, e.i, t[2]>> : t \in tags}
         /\ stats' = [events |-> stats.events + 1, ok |-> stats.ok + (IF e.r.ok THEN 1 ELSE 0),
@@ -49,7 +52,7 @@ Finish ==
   /\ l = Len(Trace) + 1
   /\ l' = l + 1
   /\ ndJsonSerialize(OutFile, <<[tags |-> SetToSeq(bad), stats |-> stats, lines |-> Len(Trace)]>>)
-  /\ UNCHANGED <<P, signed, bad, stats, crashed>>
+  /\ UNCHANGED <<P, signed, bad, stats, crashed, dbl>>
 
 Next == StepAct \/ Finish
 Spec == Init /\ [][Next]_vars
